@@ -7,8 +7,8 @@ from present import Presenter
 
 MODEL_TARGETS = ["model/SerHistory.vo"]
 COQ_TARGETS = ["props/C14.vo"]
-THEOREMS = [("C14", ["C14_pool_inv", "C14_indep", "C14_indep_budget", "C14_history"])]
-PROOF_FILES = ["proofs/RecordProofs.v", "proofs/HistoryProofs.v", "props/C14.v"]
+THEOREMS = [("C14", ["C14_pool_inv", "C14_indep", "C14_indep_budget", "C14_history", "C14_history_independent_with_slices", "C14_slice_job_pools"])]
+PROOF_FILES = ["proofs/RecordProofs.v", "proofs/HistoryProofs.v", "proofs/SinkWriteProofs.v", "proofs/SerBudgetProofs.v", "props/C14.v"]
 TRUSTED_BASE = [
     "Coq 8.16.1 kernel; no axioms (Print Assumptions: closed)",
     "hand-written model/Ser.v including the two buffer pools and the Drop code on every error path, tied by the correspondence run (per-call outcomes and bytes of whole histories)",
